@@ -34,6 +34,7 @@ class _Interner:
         self.tables = {}  # opkey -> list[(canon_id, inst_term, inst_args, uf)]
         self.count = 0
         self.info = {}    # uf name -> (opkey, canonical core, placeholders, bound vars)
+        self.neg = {}     # memo of semantic comparisons
 
     def get(self, opkey, core_term, bvars, n_out, e):
         """returns app(out_idx) -> z3 term.  The core's free constants (batch indices, N, L, ...) are made explicit
@@ -47,11 +48,20 @@ class _Interner:
             if ck == cid:
                 return lambda out, uf=uf, args=args: uf(*(list(args) + [smt.z(o) for o in out]))
         sig = _uf_signature(core_term)
-        for ck, it, ia, uf in tab:
+        tried = 0
+        for ck, it, ia, uf in (tab if len(tab) <= 6 else []):
             if _uf_signature(it) != sig:
                 continue  # cheap necessary condition: same uninterpreted function symbols
-            st, _ = engine.check_sat(e.pc + e.hyps + [it != core_term], timeout_ms=3000, try_abstract=True)
-            if st == "unsat":
+            key = (it.get_id(), core_term.get_id(), len(e.pc), len(e.hyps))
+            res = self.neg.get(key)
+            if res is None:
+                if tried >= 3:
+                    break  # semantic matching is a completeness aid only: bounded effort
+                tried += 1
+                st, _ = engine.check_sat(e.pc + e.hyps + [it != core_term], timeout_ms=800, try_abstract=False)
+                res = st == "unsat"
+                self.neg[key] = res
+            if res:
                 return lambda out, uf=uf, ia=ia: uf(*(list(ia) + [smt.z(o) for o in out]))
         self.count += 1
         doms = [a.sort() for a in args] + [z3.IntSort()] * n_out
